@@ -111,6 +111,9 @@ def check(ctx):
             B.append({"space": "B", "what": "tilt", "who": who, "rep": rep, "through": "multislice"})
     for sc in ("custom", "line", "line_ep", "grid", "grid_ep"):
         B.append({"space": "B", "what": "scan", "scan": sc})
+    for combo in (["tilt", "C10"], ["tilt", "semiangle_cutoff"], ["C10", "semiangle_cutoff"], ["tilt", "C10", "C12"], ["tilt", "C30", "semiangle_cutoff"]):
+        for lazy in (False, True):
+            B.append({"space": "B", "what": "probe-multi", "params": combo, "lazy": lazy})
     R = []
     for p in ["defocus", "C30", "C12", "focal_spread", "angular_spread", "semiangle_cutoff"]:
         for k in kinds:
@@ -333,6 +336,50 @@ def run_B(c):
             ref = np.asarray(abtem.Probe(**base, **kw, **{p: x}).build(scan, lazy=False).array)
             v.tr += 1
             v.close(arr[i], ref, "probe/members/%s" % ("aberration" if p not in PARAM_VALUES or p == "defocus" else p), "probe member %d (value %r) vs scalar probe" % (i, x))
+        return v.result()
+    if c["what"] == "probe-multi":
+        import abtem.distributions as D
+
+        names = c["params"]
+        vals = {"tilt": [0.0, 4.0], "C10": [20.0, 50.0, -30.0], "C12": [10.0, 25.0, 5.0, 40.0], "C30": [1e4, 6e4, 3e4], "semiangle_cutoff": [14.0, 22.0]}
+
+        def make(assign):
+            kw = dict(energy=E, **GRID)
+            kw["semiangle_cutoff"] = assign.get("semiangle_cutoff", 20.0)
+            if "tilt" in assign:
+                kw["tilt"] = (assign["tilt"], -2.0)
+            for k in ("C10", "C12", "C30"):
+                if k in assign:
+                    kw[k] = assign[k]
+            return abtem.Probe(**kw)
+
+        scan = abtem.CustomScan([[1.0, 0.5], [2.2, 1.9], [0.3, 2.4], [3.1, 0.2], [2.0, 2.0]])
+        probe = make({n: D.from_values(vals[n]) for n in names})
+        try:
+            out = probe.build(scan, lazy=c["lazy"])
+            out = out.compute() if c["lazy"] else out
+        except Exception as e:  # noqa: BLE001
+            v.bad("probe-multi/raises/%s" % ("lazy" if c["lazy"] else "eager"), "Probe with distributions for %r raised %s: %s" % (names, type(e).__name__, str(e)[:120]))
+            return v.result()
+        v.tr += 1
+        arr = np.asarray(out.array)
+        labels = [a.label for a in out.ensemble_axes_metadata]
+        want_shape = None
+        # the axes metadata decides which axis is which parameter
+        order = []
+        for lab in labels[:-1]:
+            order.append({"tilt_x": "tilt"}.get(lab, lab))
+        if sorted(order) != sorted(names):
+            v.bad("probe-multi/axes", "axes %r for parameters %r" % (labels, names))
+            return v.result()
+        want_shape = tuple(len(vals[n]) for n in order) + (5,)
+        if arr.shape[:-2] != want_shape:
+            v.bad("probe-multi/axes-vs-array", "array shape %r does not match the axes metadata %r (expected %r)" % (arr.shape, labels, want_shape))
+            return v.result()
+        for idx in itertools.product(*[range(len(vals[n])) for n in order]):
+            ref = np.asarray(make({n: vals[n][i] for n, i in zip(order, idx)}).build(scan, lazy=False).array)
+            v.tr += 1
+            v.close(arr[idx], ref, "probe-multi/members", "member %r of the %r ensemble vs scalar probe" % (idx, order))
         return v.result()
     if c["what"] == "tilt":
         spec, members, eshape = tilt_spec(c["rep"])
